@@ -47,7 +47,16 @@ Fixpoint bools_eqb (a b : list bool) : bool :=
 Definition lcase_ok (l : lcase) : bool :=
   lreturned l && bools_eqb (lclosed l) (fst (lstop (lconns l))) && Bool.eqb (laccepts l) (snd (lstop (lconns l))) && negb (llate l).
 
-Record case := mkCase { pre : bool; steps : list stepobs; ran : bool; lis : option lcase }.
+(* shutdown while a session's connection end is still in progress (C20): a durable client holding ONE unacknowledged
+   QoS 1 message has dropped its connection and the broker is inside the hand-over of the session's messages to
+   persistence (held open by the harness: a slow backend) when Stop is called.  Observed: Stop returned while the
+   hand-over was still pending; Stop returned after it was let go; unacknowledged messages in persistence afterwards. *)
+Record ccase := mkClosing { cearly : bool; creturned : bool; cunack : N }.
+Definition ccase_ok (c : ccase) : bool := negb (cearly c) && creturned c && (cunack c =? 1)%N.
+
+Inductive special := SLis (l : lcase) | SClosing (c : ccase).
+
+Record case := mkCase { pre : bool; steps : list stepobs; ran : bool; lis : option special }.
 
 Fixpoint inserts {A} (x : A) (l : list A) : list (list A) :=
   match l with [] => [[x]] | y :: r => (x :: l) :: map (cons y) (inserts x r) end.
@@ -78,7 +87,7 @@ Fixpoint check (cands : list st) (ss : list stepobs) : bool :=
   end.
 
 Definition case_ok (c : case) : bool :=
-  ran c && match lis c with Some l => lcase_ok l | None => check [init (pre c)] (steps c) end.
+  ran c && match lis c with Some (SLis l) => lcase_ok l | Some (SClosing x) => ccase_ok x | None => check [init (pre c)] (steps c) end.
 
 Fixpoint mismatches_from (i : nat) (cs : list case) : list nat :=
   match cs with
